@@ -234,6 +234,7 @@ pub fn run(rep: &mut Report, rng: &mut Rng, thorough: bool) {
     for i in 0..n {
         let mut r = rng.fork();
         let which = i % 10;
+        progress(&format!("C06 case {i} (kind {which}); seed-derived, rerun the engine to reproduce"));
         match which {
             0 | 1 => {
                 // XZ: structure-aware mutation with CRC fix-up, or random bytes after a valid stream header
@@ -368,6 +369,19 @@ pub fn run(rep: &mut Report, rng: &mut Rng, thorough: bool) {
                                 v.push(0);
                                 break;
                             }
+                            continue;
+                        }
+                        if r.chance(1, 5) {
+                            // an LZMA chunk header with a plausible body (first payload byte 0): state-reset-only
+                            // (0xA0..), continuing (0x80..) or props-carrying controls in any order
+                            let c = *r.pick(&[0x80u8, 0x9F, 0xA0, 0xA5, 0xBF, 0xC0, 0xE0]);
+                            let comp = r.range(5, 12) as usize;
+                            v.extend([c, 0, r.below(4) as u8, 0, (comp - 1) as u8]);
+                            if c >= 0xC0 {
+                                v.push(*r.pick(&[0x5Du8, 0, 0x2C, 0xE0]));
+                            }
+                            v.push(0);
+                            v.extend(r.bytes(comp - 1));
                             continue;
                         }
                         let c = *r.pick(&[0u8, 1, 2, 3, 0x7F, 0x80, 0xA0, 0xC0, 0xE0, 0xFF]);
